@@ -132,8 +132,12 @@ def dynamic_footprint(chk):
                                         # pavement below the deepest ground depth (refused on the pinned tree)
                                         (2, 2, 300, True, {'droad': 4.5})]:
         m = U2.new_model(outdir=chk.work(), outname='fp.epw', month=mo, day=dy, nday=1, dtsim=dt, **extra)
-        with core.quiet():
-            m.generate()
+        try:
+            with core.quiet():
+                m.generate()
+        except Exception as e:  # noqa  (a refused parameter set: no run, nothing to observe)
+            chk.notes.append('dynamic footprint run %s refused by generate(): %s' % ((mo, dy, dt), str(e)[:60]))
+            continue
         if not nsoil3:
             m.nSoil = 2
         log = []
